@@ -543,6 +543,83 @@ def _chunks(xs, n):
     return [xs[i:i + k] for i in range(0, len(xs), k)]
 
 
+# -------------------------------------------------------------- onestep
+
+def run_onestep(fnames, tier, want=None):
+    """Auxiliary (concrete): every input one accepted proposal away from a
+    well-sorted script of the typed generator (all operator families, all
+    mutators) goes through the main-process functions without an
+    exception - these are the intermediate inputs ddSMT produces itself."""
+    import time
+    from harness import c15
+    from ddsmt import mutators, smtlib, nodes, nodeio
+    from ddsmt.mutator_utils import apply_simp, Simplification
+    t0 = time.time()
+    _pristine_args()
+    muts = c15.all_mutators()
+    n = 0
+    bad = None
+    nums = ((3, 5, 2), (8, 4, 3), (1, 1, 0))
+    for fname in fnames:
+        for nu in nums:
+            if want is not None and want != (fname, list(nu)):
+                continue
+            ex = c15.typed_script(fname, nu)
+            if ex is None:
+                continue
+            ex = list(nodeio.parse_smtlib(nodeio.write_smtlib_to_str(ex)))
+            smtlib.collect_information(ex)
+            results = []
+            for node in list(nodes.dfs(ex)):
+                for cls, m in muts:
+                    try:
+                        if hasattr(m, 'filter') and not m.filter(node):
+                            continue
+                        props = []
+                        if hasattr(m, 'mutations'):
+                            props.extend(m.mutations(node))
+                        if hasattr(m, 'global_mutations'):
+                            props.extend(m.global_mutations(node, ex))
+                        for p in props:
+                            r = apply_simp(ex, Simplification(
+                                dict(p.substs), list(p.fresh_vars)))
+                            if r is not None:
+                                results.append((cls, r if isinstance(r, list)
+                                                else [r]))
+                    except Exception:
+                        continue          # isolated per mutator (isolate_*)
+            for cls, res in results:
+                n += 1
+                what = 'auto_detect_theories'
+                try:
+                    _pristine_args()
+                    mutators.auto_detect_theories(res)
+                    what = 'collect_information'
+                    smtlib.collect_information(res)
+                    what = 'count/render'
+                    nodes.count_nodes(res)
+                    nodes.count_exprs(res)
+                    nodeio.write_smtlib_to_str(res)
+                except Exception as e:
+                    bad = ({'family': fname, 'nums': list(nu)},
+                           f'{what} raised {type(e).__name__}: {e} on the '
+                           f'input produced by {cls}: '
+                           f'{nodeio.write_smtlib_to_str(res)[:300]!r}')
+                    break
+            if bad:
+                break
+        if bad:
+            break
+    return {'status': 'VIOLATED' if bad else 'CONFIRMED',
+            'cex': bad[0] if bad else None,
+            'exc': {'type': 'Violation', 'msg': bad[1]} if bad else None,
+            'paths': n, 'paths_ok': n, 'solver_checks': 0,
+            'solver_seconds': 0.0,
+            'samples': [{'families': fnames[:3], 'numerals': list(nums)}],
+            'wall_s': round(time.time() - t0, 2),
+            'note': 'concrete enumeration (auxiliary)'}
+
+
 # ------------------------------------------------------------------ e2e
 
 E2E_SCRIPTS = {
@@ -598,6 +675,13 @@ def partitions(tier):
     b = bounds(tier)
     bud = 160 if tier == 'quick' else 850
     parts = []
+    from harness import c16
+    fams = list(c16.FAMS)
+    for k in range(8):
+        chunk = fams[k::8]
+        parts.append({'name': f'onestep_{k}', 'kind': 'native',
+                      'run': (lambda chunk=chunk: run_onestep(chunk, tier)),
+                      'budget_s': 600, 'bounds': {'families': len(chunk)}})
     for sc in E2E_SCRIPTS:
         for st in ('ddmin', 'hierarchical', 'hybrid'):
             parts.append({'name': f'e2e_{sc}_{st}', 'kind': 'choices',
@@ -671,6 +755,10 @@ def replay(part, cex):
         if part.startswith('isolate'):
             return isolate_body(cex['site'], cex['exc_i'], cex['victim_i'],
                                 cex['glob'], part.split('_')[1])
+        if part.startswith('onestep'):
+            r = run_onestep([cex['family']], 'thorough',
+                            (cex['family'], list(cex['nums'])))
+            return r['exc']['msg'] if r['exc'] else None
         if part.startswith('e2e_'):
             _, sc, st = part.split('_')
             V, S = (6, 2) if tier == 'quick' else (9, 3)
